@@ -55,7 +55,9 @@ func (f FReader) read() (string, error) {
 		// the last line of the file, without a line break
 		return line, nil
 	}
-	return line, err
+	// like the readline reader, hand out the line without its line break: Loop
+	// joins the lines of a multi-line statement with one
+	return strings.TrimSuffix(line, "\n"), err
 }
 
 func (f FReader) Close() error { return f.r.Close() }
